@@ -338,7 +338,11 @@ func formatInto(sb *strings.Builder, format string, args []string) (int, error) 
 				fallthrough
 			default: // no escape sequence
 				sb.WriteByte('\\')
-				sb.WriteByte(c)
+				if c == '%' {
+					i-- // the backslash is literal; the directive still applies
+				} else {
+					sb.WriteByte(c)
+				}
 			}
 		case len(fmts) > 0:
 			switch c {
